@@ -340,7 +340,7 @@ def case_strategy(corpus):
 
 
 def shards(tier):
-    n, k = (900, 32) if tier == 'quick' else (40000, 96)
+    n, k = (900, 32) if tier == 'quick' else (8000, 96)
     return [{'n': c, 'i': i} for i, c in enumerate(harness.split(n, k))]
 
 
